@@ -160,7 +160,16 @@ def run(ch, tier):
             host.add_transition(Transition('X', 'Y', event='hx'))
         prefix = rs.pick(['g_', 'zz', 'A'])
         fn = lambda s: prefix + s    # noqa
-        ctx = dict(chart=sp.describe(), host=host_kind, renaming_prefix=prefix, script=[repr(o)[:60] for o in script][:30])
+        reuse = None
+        inner = sorted(n for n in sp.states if n != sp.root)
+        if inner and prefix in ('zz', 'A') and rs.flag(1, 2):
+            # the renaming function may give a copied state the name the guest's root had (the root itself takes the name of the
+            # state it replaces, so that name is free); chosen so that the relative order of the guest's names is kept
+            reuse = inner[0] if prefix == 'zz' else inner[-1]
+            fn = lambda s: sp.root if s == reuse else prefix + s    # noqa
+            res.stats['renaming_function_reuses_the_name_of_the_guest_root'] += 1
+        ctx = dict(chart=sp.describe(), host=host_kind, renaming_prefix=prefix, renamed_to_the_root_name=reuse,
+                   script=[repr(o)[:60] for o in script][:30])
         try:
             host.copy_from_statechart(guest, source=sp.root, replace='LEAF', renaming_func=fn)
             host.validate()
@@ -173,6 +182,8 @@ def run(ch, tier):
                 return None
             if s == 'LEAF':
                 return sp.root
+            if reuse is not None and s == sp.root:
+                return reuse
             return s[len(prefix):] if s.startswith(prefix) else s
         internal_guest = {tid(t): t.internal for t in guest.transitions}
         internal_host = {tid(t): t.internal for t in host.transitions if t.action}
